@@ -26,6 +26,8 @@ mod helpers {
     pub fn _eq<T: ?Sized>(_: &T) -> u8 { 0 }
     pub fn _f<T: ?Sized>(_: &T) -> u8 { 0 }
     pub const K: i8 = 7;
+    pub const TWO: usize = 2;
+    pub const SX: &str = "x";
     pub trait Mk { fn mk() -> Self; }
     impl Mk for i8 { fn mk() -> Self { 5 } }
     /// a transparent wrapper, and two projections that give their argument back
@@ -1641,13 +1643,28 @@ def gen_macro_case(seed, idx):
     attrs = ['', '']
     if cmpset and rng.random() < 0.4:
         attrs[rng.randrange(2)] = rng.choice(['#[ord(ignore)] ', '#[ord(key = helpers::ksz(&$))] '] + (['#[ord(reverse)] '] if 'PartialOrd' in traits else []))
+    # an `$n:expr` fragment inside a field type and a `$s:literal` / `$s:expr` default value: the invisible groups around them
+    # must keep their meaning in the item that is emitted again and in the generated code (F36); `_chk` pins the type
+    grp = (not ops) and rng.random() < 0.6
+    n_arg = rng.choice(['1 + 1', '2', '3 - 1', '(1 + 1)', 'helpers::TWO'])
+    arr = '[u8; $n * 2]'
+    sdef = ''
+    s_arg = rng.choice(['"x"', 'String::from("x")', 'helpers::SX'])
+    if grp and 'Default' in traits and shape != 'enum' and rng.random() < 0.7:
+        sdef = '#[default($s)] '
     if shape == 'tuple':
-        body = f'pub struct $name({attrs[0]}pub $a, {attrs[1]}pub $b);'
+        body = f'pub struct $name({attrs[0]}pub $a, {attrs[1]}pub $b' + (f', pub {arr}, {sdef}pub String' if grp else '') + ');'
+        chk = 'pub fn _chk(x: &X) -> &[u8; 4] { &x.2 }\n'
     elif shape == 'named':
-        body = f'pub struct $name {{ {attrs[0]}pub first: $a, {attrs[1]}pub second: $b }}'
+        body = f'pub struct $name {{ {attrs[0]}pub first: $a, {attrs[1]}pub second: $b' + (f', pub third: {arr}, {sdef}pub fourth: String' if grp else '') + ' }'
+        chk = 'pub fn _chk(x: &X) -> &[u8; 4] { &x.third }\n'
     else:
         dflt = '#[default] ' if 'Default' in traits else ''
-        body = f'pub enum $name {{ {dflt}Unit, Tup({attrs[0]}$a, {attrs[1]}$b), Rec {{ x: $b }} }}'
-    mac = f'macro_rules! mk {{ ($name:ident, $a:{frag[kinds[0]]}, $b:{frag[kinds[1]]}) => {{ {head} {body} }} }}\nmk!(X, {argty[0]}, {argty[1]});\n'
+        body = f'pub enum $name {{ {dflt}Unit, Tup({attrs[0]}$a, {attrs[1]}$b), Rec {{ x: $b }}' + (f', Arr({arr})' if grp else '') + ' }'
+        chk = 'pub fn _chk(x: X) { if let X::Arr(a) = x { let _: [u8; 4] = a; } }\n'
+    extra_params = ', $n:expr, $s:expr' if grp else ''
+    extra_args = f', {n_arg}, {s_arg}' if grp else ''
+    mac = (f'macro_rules! mk {{ ($name:ident, $a:{frag[kinds[0]]}, $b:{frag[kinds[1]]}{extra_params}) => {{ {head} {body} }} }}\n'
+           f'mk!(X, {argty[0]}, {argty[1]}{extra_args});\n' + (chk if grp else ''))
     return dict(id=f'mac/{seed}/{idx}', item=mac, src=PRELUDE + mac, traits=traits,
-                desc=dict(shape=shape, entry=entry, frags='+'.join(kinds)))
+                desc=dict(shape=shape, entry=entry, frags='+'.join(kinds), groups=grp))
